@@ -289,6 +289,10 @@ def run(prog, scope_units=None, scope_funcs=None, rule="R-BUF", exceptions=EXCEP
                 continue
             res.nontrivial += 1
             ex = exceptions.get((f.name, n, dtxt))
+            if not ex and n in ("strncpy", "memcpy", "memmove"):
+                # the block-copy routines take the same (destination, source, length): an exception reasoned for one of them holds for the others
+                for alt in ("strncpy", "memcpy", "memmove"):
+                    ex = ex or exceptions.get((f.name, alt, dtxt))
             if ex:
                 res.excepted.append(("%s: %s into %s" % (f.name, n, dtxt), ex))
                 continue
